@@ -398,7 +398,8 @@ def report(a, P, props, results, bounded, known, seed, t0, world):
                           'min_obligations': int(n_obl * 0.8)}
         with open(base_path, 'w') as f:
             json.dump(baseline, f, indent=1, sort_keys=True)
-    if n_obl < min_obl and not a.only:
+    if n_obl < min_obl and not a.only and not any(r.get('unsupported') for r in results):
+        # (functions outside the supported subset are reported as undecided above, not as a checker failure)
         crashes.append(f'only {n_obl} obligations generated, committed minimum is {min_obl} (vacuity guard)')
     exit_code = 0
     vio_lines = []
